@@ -66,6 +66,13 @@ UnmWhole(sid, ver, cut) ==
   LET out == UnmOutcome(pool[sid], ver, cut) IN
   <<out, IF out = "" THEN Loaded(sid) ELSE Ext(EmptyC, inst.lv, 0)>>
 
+\* the steps a call passes before it ends: the hook of the code fires after the
+\* header was read ("header") and after the body was decoded ("body")
+UnmStages(sid, ver, cut) ==
+  IF cut < HeaderLen THEN <<>>
+  ELSE IF ~Compatible(ver) \/ UnmOutcome(pool[sid], ver, cut) # "" THEN <<"header">>
+  ELSE <<"header", "body">>
+
 ResetInst ==
   /\ pc[1] = "idle"
   /\ inst' = EmptyC
